@@ -7,6 +7,7 @@ package main
 // first kin-openapi function on its stack the signature.
 
 import (
+	"syscall"
 	"bytes"
 	"context"
 	"encoding/json"
@@ -291,6 +292,9 @@ func c10Random(r *Rng) C10Case {
 				if r.Chance(70) {
 					ct := Pick(r, []string{"application/json", "text/plain", "application/*", "*/*", "application/x-www-form-urlencoded", "multipart/form-data", "application/xml"})
 					rd["content"] = jobj(ct, jobj("schema", Pick(r, []any{c10Schema(r, 2), jref("schemas", "Rec")})))
+					if r.Chance(15) {
+						rd["content"] = jobj(ct, jobj()) // a media type without schema
+					}
 				}
 				if r.Chance(50) {
 					h := jobj("required", r.Bool())
@@ -310,6 +314,9 @@ func c10Random(r *Rng) C10Case {
 					mt := jobj("schema", Pick(r, []any{c10Schema(r, 2), jref("schemas", "Rec"), jobj("type", "object", "properties", jobj("a", c10Schema(r, 1), "f", jobj("type", "string", "format", "binary")))}))
 					if strings.Contains(ct, "form") && r.Chance(40) {
 						mt["encoding"] = jobj("a", jobj("contentType", Pick(r, []string{"application/json", "text/plain", "bogus"}), "style", "form", "explode", r.Bool()))
+					}
+					if r.Chance(10) {
+						mt = jobj() // a media type without schema
 					}
 					content[ct] = mt
 				}
@@ -342,7 +349,10 @@ func c10Random(r *Rng) C10Case {
 	// traffic
 	seg := []string{"1", "abc", "", "%2F", "%", "%zz", "a,b", ".x.y", ";p0=1", ";p0=1;p0=2", "a=1,b=2", "é", "..", "{p0}", "1e400", "NaN", "-0", strings.Repeat("9", 40), "null", "true", "[1]", "{\"a\":1}"}
 	bodies := []string{"", "{}", "[]", "null", "1", "\"s\"", "{\"a\":", "{\"next\":{\"next\":{\"next\":null}}}", "{\"a\":1e400}", "a=1&b=2", "a=%zz", "plain", "\x00\xff",
-		"--b\r\nContent-Disposition: form-data; name=\"a\"\r\n\r\n1\r\n--b--\r\n", "{\"a\":NaN}", "[[[[[[[[[[]]]]]]]]]]", "{\"v\":{\"v\":1}}", "<x/>", "a: 1\nb: [", strings.Repeat("[", 2000)}
+		"--b\r\nContent-Disposition: form-data; name=\"a\"\r\n\r\n1\r\n--b--\r\n",
+		"--b\r\nContent-Disposition: form-data; name=\"a\"\r\nContent-Type: application/json\r\n\r\n{\"a\":\r\n--b--\r\n",
+		"--b\r\nContent-Disposition: form-data; name=\"a\"\r\nContent-Type: text/plain\r\n\r\nx\r\n--b\r\nContent-Disposition: form-data; name=\"f\"; filename=\"f\"\r\nContent-Type: application/json\r\n\r\n[1,\r\n--b--\r\n",
+		"--b\r\nContent-Disposition: form-data; name=\"zz\"\r\nContent-Type: application/x-yaml\r\n\r\na: [\r\n--b--\r\n", "{\"a\":NaN}", "[[[[[[[[[[]]]]]]]]]]", "{\"v\":{\"v\":1}}", "<x/>", "a: 1\nb: [", strings.Repeat("[", 2000)}
 	cts := []string{"", "application/json", "application/json; charset=utf-8", "text/plain", "application/x-www-form-urlencoded", "multipart/form-data; boundary=b", "multipart/form-data",
 		"application/octet-stream", ";", "a/b/c", "application/problem+json", "APPLICATION/JSON", "text/csv", "application/zip", "application/x-yaml", "application/json;;", "application/json; charset"}
 	for i := 0; i < 8; i++ {
@@ -360,11 +370,17 @@ func c10Random(r *Rng) C10Case {
 			target += "?" + Pick(r, []string{
 				n + "[a]=1&" + n + "[a][b]=2&" + n + "[c][0]=x&" + n + "[c]=y",
 				n + "[ids][-1]=3&" + n + "[ids][0]=1", n + "[ids][5]=3", n + "[ids][99999999999999999999]=1", n + "[ids][x]=1&" + n + "[ids][1]=2",
+				n + "[ids][1000000000]=1", n + "[v][123456789][v]=1", n + "[c][4294967296]=x&" + n + "[c][0]=y", n + "[ids][2147483647]=1&" + n + "[ids][0]=2",
 				n + "[]=1", n + "[=1", n + "][=1", n + "[a][]=1&" + n + "[a][][b]=2", n + "[v][0][v]=1&" + n + "[v][1]=2"})
 		} else if r.Chance(70) {
 			var qs []string
 			for k := 0; k < r.Intn(4); k++ {
 				qs = append(qs, Pick(r, []string{"q", "id", "f", "q[x]", "q[x][y]", "a b", "", "%zz"})+Pick(r, []string{"=", "", "[]="})+Pick(r, seg))
+			}
+			if len(qs) > 0 && r.Chance(25) {
+				// the same key again, with a value that is not JSON (parameters defined by content)
+				k := strings.SplitN(qs[0], "=", 2)[0]
+				qs = append(qs, k+"="+Pick(r, []string{"a", "b c", "{", "[1", "tru"}))
 			}
 			target += "?" + strings.Join(qs, Pick(r, []string{"&", ";", "&&"}))
 		}
@@ -393,6 +409,10 @@ func c10Random(r *Rng) C10Case {
 func init() {
 	runners["C10child"] = func(seed uint64, n int, outDir string, replay string) {
 		cases := loadReplayCases[C10Case](replay)
+		// hostile array indexes must not take the sandbox down: an allocation beyond 3 GiB of
+		// address space is a fatal error of the child, reported as such
+		lim := &syscall.Rlimit{Cur: 3 << 30, Max: 3 << 30}
+		_ = syscall.Setrlimit(syscall.RLIMIT_AS, lim)
 		for i := int(seed); i < len(cases); i++ {
 			fmt.Printf("start %d\n", i)
 			os.Stdout.Sync()
